@@ -12,9 +12,9 @@ RULE = ("kinds: jtest_linear (quadratic H: exact step matrix M from basis vector
         "distinct by (kind, method, hamiltonian, layout, route, sign, seed)")
 ASSUMPTIONS = ["finite-difference J-test: delta=1e-5 in longdouble, threshold 1e-8; exact linear J-test threshold 1e4*eps*cond (splitting) / 1e3*solver tolerance (implicit)"]
 FLOORS = {"quick": {"jtest_linear": 24, "jtest_fd": 24, "reverse_probes": 24, "energy_runs": 6, "mask_probes": 36, "controls_fired": 3, "reuse_probes": 20,
-                    "reuse_nearby_state_probes": 40, "hard_steps_accepted": 10, "hard_reverse_probes": 6, "hard_jtest_probes": 6},
+                    "reuse_nearby_state_probes": 40, "hard_steps_accepted": 10, "hard_stage_residual_checks": 20, "hard_steps_with_a_failed_stage_iteration_under_user_fn": 4},
           "thorough": {"jtest_linear": 60, "jtest_fd": 60, "reverse_probes": 60, "energy_runs": 36, "mask_probes": 240, "controls_fired": 20, "reuse_probes": 150,
-                       "reuse_nearby_state_probes": 300, "hard_steps_accepted": 60, "hard_reverse_probes": 40, "hard_jtest_probes": 40}}
+                       "reuse_nearby_state_probes": 300, "hard_steps_accepted": 60, "hard_stage_residual_checks": 100, "hard_steps_with_a_failed_stage_iteration_under_user_fn": 20}}
 CASE_TIMEOUT = 1200
 SPLIT = ["SymplecticEulerSolver", "ABAs5o6HSolver", "BABs9o7HSolver"]
 LAYOUTS = ["qp", "pq", "interleaved"]
@@ -58,10 +58,10 @@ def gen_cases(tier, seed):
     # steps so long that the stage iteration of the implicit symplectic methods may fail: whatever (dTime, dState) is handed back, with the
     # library's own controller or with a user adaptation_fn in its place, must be a step of the symplectic, symmetric map of size dTime
     for name in [n_ for n_ in sym if not M[n_]["explicit"]]:
-        for r in range(6 if tier == "quick" else 40):
+        for r in range(22 if tier == "quick" else 80):
             cases.append(dict(kind="hard_step", method=name, ham=str(rng.choice(["pendulum", "duffing", "henon_heiles", "quartic_chain"])),
-                              h=float(rng.choice([-1, 1])) * float(rng.choice([1.0, 1.5, 2.0, 3.0])), controller=str(rng.choice(["user_fn", "user_fn", "own"])),
-                              tol=float(rng.choice([0.0, 1e-12])), pseed=int(rng.integers(1 << 30)), cost=40))
+                              h=float(rng.choice([-1, 1])) * float(rng.choice([0.6, 2.0, 3.0, 3.0, 5.0, 5.0])), controller=str(rng.choice(["user_fn", "user_fn", "user_fn", "own"])),
+                              tol=float(rng.choice([0.0, 0.0, 1e-12])), pseed=int(rng.integers(1 << 30)), cost=20))
     for name in (["RK4Solver", "LobattoIIIA4", "EulerSolver", "RadauIIA5"] if tier == "quick" else [n for n, i in M.items() if not i["symplectic"]]):
         for r in range(1 if tier == "quick" else 2):
             cases.append(dict(kind="control", method=name, ham="pendulum", h=float(rng.uniform(0.3, 0.6)), pseed=int(rng.integers(1 << 30)), cost=4 if M[name]["explicit"] else 60))
@@ -204,23 +204,61 @@ def _hard_step(spec, info, ham, rhs, y, h, rec, feats, J, n):
         intg = info["cls"]((n,), dtype=dt_, **kw)
         if spec["controller"] == "user_fn":
             util.passthrough_adaptation(intg)
+        from vf.instrument import StepLog
+        slog_ = StepLog(intg)
         try:
             _, (dT, dY) = intg(r, np.asarray(0.0, dtype=dt_), np.asarray(y0, dtype=dt_), {}, np.asarray(hh, dtype=dt_))
         except Exception as e:
             if type(e).__name__ in ("CaseTimeout", "NoProgress"):
                 raise
             return None, None          # the integrator refused the step: nothing was claimed
+        last["intg"] = intg
+        last["failed_attempts"] = sum(1 for a_ in slog_.attempts if a_.get("newton_ok") is False)
         return float(dT), np.asarray(y0, dtype=dt_) + np.asarray(dY)
-    y = 2.0 * y if spec["ham"] != "henon_heiles" else y
+    last = {}
+    y = 3.0 * y if spec["ham"] != "henon_heiles" else 1.5 * y
     dT, y1 = any_step(y, h)
     rec.sample = {"spec": spec, "accepted_dT": dT}
     if dT is None:
         rec.bump("hard_steps_refused")
         return rec.out()
     rec.bump("hard_steps_accepted")
+    if last.get("failed_attempts"):
+        rec.bump("hard_steps_with_a_failed_stage_iteration")
+        if spec["controller"] == "user_fn":
+            rec.bump("hard_steps_with_a_failed_stage_iteration_under_user_fn")
     if abs(dT) < abs(h):
         rec.bump("hard_steps_shortened")
     rec.nontrivial = True
+    # (0) whatever is handed back is a step of the SCHEME: the stage slopes the integrator holds satisfy the stage equations of size dT
+    intg0 = last["intg"]
+    A = np.asarray(info["cls"].tableau_intermediate, dtype=np.longdouble)
+    Kst = np.asarray(intg0.stage_values, dtype=np.longdouble)
+    yl = np.asarray(y, dtype=np.longdouble)
+    res = 0.0
+    for i_ in range(A.shape[0]):
+        ki = np.asarray(rhs(0.0, yl + np.longdouble(dT) * (Kst @ A[i_, 1:])), dtype=np.longdouble)
+        res = max(res, float(np.max(np.abs(Kst[:, i_] - ki))))
+    stated = 0.5 * (float(intg0.atol) + float(intg0.rtol) * float(np.max(np.abs(y)))) / max(abs(dT), 1.0)
+    unit_r = 20 * stated + 1e-12 * (1 + float(np.max(np.abs(Kst))))
+    rec.bump("hard_stage_residual_checks")
+    rec.worst("hard_stage_residual_over_unit", res / unit_r)
+    if not np.isfinite(res) or res > unit_r:
+        rec.violate("symplectic_form", "accepted_long_step_is_not_a_step_of_the_scheme", feats, stage_residual=res, unit=unit_r, dT=dT)
+        return rec.out()
+    # for steps this long the stage equations may have several solutions: the round trip and the finite-difference Jacobian are only meaningful
+    # where the solution is unique (|dT| * Lipschitz constant * max row sum of |A| < 0.8)
+    def lip_at(yy):
+        Jf = np.zeros((n, n))
+        for j_ in range(n):
+            e_ = np.zeros(n)
+            e_[j_] = 1e-6
+            Jf[:, j_] = (np.asarray(rhs(0.0, yy + e_)) - np.asarray(rhs(0.0, yy - e_))) / 2e-6
+        return float(np.linalg.norm(Jf, 2))
+    kappa = abs(dT) * max(lip_at(np.asarray(y, dtype=np.float64)), lip_at(np.asarray(y1, dtype=np.float64))) * float(np.max(np.sum(np.abs(A[:, 1:]), axis=1)))
+    if kappa >= 0.8:
+        rec.bump("hard_steps_outside_the_unique_solution_regime")
+        return rec.out()
     # the Jacobian of the map of size dT by central differences (neighbours advanced by another step size are not the same map: skipped)
     delta = 1e-4
     Mx = np.zeros((n, n))
